@@ -202,6 +202,7 @@ class Evaluator:
         self.fill_defaults = fill_defaults
         self.callee_hook = callee_hook
         self.observer = observer    # observer(call_node, term, state) for every evaluated call
+        self.unroll_limit = 4
         self.npaths = 0
         self._fresh = itertools.count()
         self.stats = {'forks': 0, 'calls_resolved': 0, 'calls_unresolved': 0, 'inlined': 0}
@@ -551,6 +552,10 @@ class Evaluator:
             if k == 'raise':
                 res.append(Exit('raise', it, s1, s))
                 continue
+            items = _static_items(it)
+            if items is not None and len(items) <= self.unroll_limit:
+                res.extend(self._for_unrolled(s, s1, items, fi, depth))
+                continue
             modified = self._modified(s.body) | {n.id for n in ast.walk(s.target) if isinstance(n, ast.Name)}
             entry_env = dict(s1.env)
             head = self._havoc(s1, modified, s.body, tag)
@@ -582,6 +587,30 @@ class Evaluator:
                 a2.loops.append(LoopSummary(s, 'for', var, it, body_states, head.env, entry_env))
                 res.append(Exit('fall', None, a2))
         return res
+
+    def _for_unrolled(self, s, st, items, fi, depth):
+        """Concrete unrolling of `for target in <literal sequence>`."""
+        mod = fi.module
+        states = [st]
+        out = []
+        for item in items:
+            nxt = []
+            for cur in states:
+                cur = self._assign(s.target, item, cur, mod, fi, depth, s.lineno)
+                for e in self._block(s.body, cur, fi, depth):
+                    if e.kind in ('fall', 'continue'):
+                        nxt.append(e.state)
+                    elif e.kind == 'break':
+                        out.append(Exit('fall', None, e.state))
+                    else:
+                        out.append(e)
+            states = nxt
+        for cur in states:
+            if s.orelse:
+                out.extend(self._block(s.orelse, cur, fi, depth))
+            else:
+                out.append(Exit('fall', None, cur))
+        return out
 
     def _loopvar(self, target, it, tag):
         if isinstance(target, ast.Name):
@@ -675,7 +704,12 @@ class Evaluator:
             key = _lvalue_key(tgt.value)
             st.effects.append(('setitem', bt, it, t, ln, key))
             if key:
-                st.env[key] = ('setitem', bt, it, t)
+                if bt[0] == 'list' and is_c(it) and type(it[1]) is int and -len(bt[1]) <= it[1] < len(bt[1]):
+                    items = list(bt[1])
+                    items[it[1]] = t
+                    st.env[key] = ('list', tuple(items))
+                else:
+                    st.env[key] = ('setitem', bt, it, t)
             return st
         if isinstance(tgt, ast.Attribute):
             outs = self._ev(tgt.value, st, mod, fi, depth)
@@ -1076,6 +1110,11 @@ class Evaluator:
                 return [(('call', d, tuple(pos), tuple(sorted(kws, key=lambda x: x[0]))), st, 'ok')]
         self.stats['calls_resolved'] += 1
         if callee.kind == 'lib':
+            if callee.dotted in ('builtins.list', 'builtins.tuple') and len(pos) == 1 and not kws \
+                    and pos[0][0] in ('list', 'tuple'):
+                return [((callee.dotted.split('.')[-1], pos[0][1]), st, 'ok')]
+            if callee.dotted == 'builtins.len' and len(pos) == 1 and not kws and pos[0][0] in ('list', 'tuple', 'dict'):
+                return [(C(len(pos[0][1])), st, 'ok')]
             if callee.dotted.startswith(IMPURE_PREFIXES) and callee.dotted not in PURE_EXCEPTIONS:
                 # every evaluation of a sampler is a distinct draw: tag the term so two draws never compare equal
                 kws = list(kws) + [('#draw', C(next(self._fresh)))]
@@ -1232,6 +1271,26 @@ def _mk_sub(base, idx):
             if k == idx:
                 return v
     return ('sub', base, idx)
+
+
+def _static_items(it):
+    """Elements of an iteration space that is known statically (literal sequences, enumerate/range of those)."""
+    if it[0] in ('list', 'tuple'):
+        return list(it[1])
+    if it[0] == 'call' and it[1] == 'builtins.enumerate' and len(it[2]) == 1 and not it[3]:
+        inner = _static_items(it[2][0])
+        if inner is not None:
+            return [('tuple', (C(i), x)) for i, x in enumerate(inner)]
+    if it[0] == 'call' and it[1] == 'builtins.range' and not it[3] and it[2] \
+            and all(is_c(a) and type(a[1]) is int for a in it[2]):
+        r = range(*[a[1] for a in it[2]])
+        if len(r) <= 8:
+            return [C(i) for i in r]
+    if it[0] == 'call' and it[1] == 'builtins.zip' and it[2] and not it[3]:
+        cols = [_static_items(a) for a in it[2]]
+        if all(c is not None for c in cols):
+            return [('tuple', tuple(x)) for x in zip(*cols)]
+    return None
 
 
 def _fold(op, a, b):
